@@ -115,8 +115,12 @@ def _worker(mod, tier, seed, shard, nshards, plan, corpus_items, wfd):
                 continue
             r.setdefault('c', {})['corpus_cases'] = 1
             agg.add(r)
-        idx = shard
+        # case idx belongs to shard (idx + idx // nshards) % nshards: every block of nshards consecutive cases is
+        # spread over all shards, rotated by one per block, so that "every k-th case is of the expensive kind" does not
+        # put all expensive cases into the same one or two workers
         n = plan['n']
+        block = 0
+        idx = (shard - block) % nshards
         while idx < n:
             if time.time() > t_end:
                 agg.counters['stopped_at_deadline'] = agg.counters.get('stopped_at_deadline', 0) + 1
@@ -128,10 +132,12 @@ def _worker(mod, tier, seed, shard, nshards, plan, corpus_items, wfd):
             except CaseTimeout:
                 agg.inconclusive.append('case %d timeout' % idx)
                 agg.evaluations += 1
-                idx += nshards
+                block += 1
+                idx = block * nshards + (shard - block) % nshards
                 continue
             agg.add(r)
-            idx += nshards
+            block += 1
+            idx = block * nshards + (shard - block) % nshards
         fin = getattr(mod, 'finish', None)
         if fin:
             extra = fin(ctx)
